@@ -106,7 +106,8 @@ def box_matrix_floats(cell):
     return [cell[c][r] for r in range(3) for c in range(3)]
 
 
-def setup_pair(I, cell, kernel, n_frames=1, times=None, cell0=None, concrete0=False):
+def setup_pair(I, cell, kernel, n_frames=1, times=None, cell0=None, concrete0=False, other_frame=0):
+    """cell0: the cell of frame `other_frame` (the frame the claim is NOT about); every other frame has `cell`"""
     X = [[Poly.var(f"x{f}_{i}") for i in range(6)] for f in range(n_frames)]
     if concrete0:      # frame 0 concrete (C08: a later frame must not depend on it)
         X[0] = [P(F(v)) for v in (F(1, 10), F(-3, 10), F(7, 10), F(12, 10), F(4, 10), F(-9, 10))]
@@ -119,7 +120,7 @@ def setup_pair(I, cell, kernel, n_frames=1, times=None, cell0=None, concrete0=Fa
     if times is not None:
         args.append(I.new_ints([t for p in times for t in p]))
     if cell is not None:
-        args.append(I.new_floats([v for f in range(n_frames) for v in box_matrix_floats(cell0 if (cell0 is not None and f == 0) else cell)]))
+        args.append(I.new_floats([v for f in range(n_frames) for v in box_matrix_floats(cell0 if (cell0 is not None and f == other_frame) else cell)]))
     args += [dout, disp, nf, 2, 1]
     return args, {"X": X, "dout": dout, "disp": disp}
 
@@ -165,7 +166,8 @@ def integer_combination(I, n_poly):
 
 def check_kernel(kernel: str, cell: str, M: int = 2, coord_cells: int = 50, second_frame: bool = False, cell0: str = ""):
     """one kernel x one cell: all leaves, obligations (a) (b) (c).  second_frame: a 2-frame call whose frame 0 is concrete (and has
-    the cell `cell0`); the obligations are then stated for frame 1 only — its result must not depend on frame 0 (C08)."""
+    the cell `cell0`); the obligations are then stated for frame 1 only — its result must not depend on frame 0 (C08).  For the time-pair
+    kernels (*_t, time pair (0, 1)) `cell0` is instead the cell of frame 1: the documented cell is that of the FIRST time index."""
     t0 = time.time()
     mod, _ = module()
     cellv = CELLS[cell] if cell != "none" else None
@@ -178,7 +180,7 @@ def check_kernel(kernel: str, cell: str, M: int = 2, coord_cells: int = 50, seco
     bad = None
     margin = rv(F(1, 10**6))
     unknown = []
-    for I, ctx, _ in L.explore(mod, kernel, lambda I: setup_pair(I, cellv, kernel, n_frames, times, c0, second_frame), timeout_ms=60000):
+    for I, ctx, _ in L.explore(mod, kernel, lambda I: setup_pair(I, cellv, kernel, n_frames, times, c0, second_frame, 1 if is_t else 0), timeout_ms=60000):
         res["paths"] += 1
         X = ctx["X"]
         x1 = X[look][0:3]
@@ -386,7 +388,7 @@ def replay(kernel, cell, vals, cell0=None, second_frame=False):
             frames.append([0.1, -0.3, 0.7, 1.2, 0.4, -0.9])
         else:
             frames.append([vals.get(f"Poly(1*x{f}_{i})", vals.get(f"x{f}_{i}", 0.0)) for i in range(6)])
-    cells = [[[float(v) for v in r] for r in (CELLS[cell0] if (cell0 and f == 0) else CELLS[cell])] for f in range(nfr)]
+    cells = [[[float(v) for v in r] for r in (CELLS[cell0] if (cell0 and f == (1 if is_t else 0)) else CELLS[cell])] for f in range(nfr)]
     script = REPLAY.format(kernel=kernel, look=look, is_t=is_t, cells=cells, frames=frames, ortho=cell in ORTHO)
     import subprocess, sys as _s
     with tempfile.NamedTemporaryFile("w", suffix=".py", delete=False) as fh:
